@@ -59,6 +59,9 @@ type tcase struct {
 	ascraw []byte
 	truth  string // ground truth of the ADTS-visible audio parameters, when the generator knows it
 	mux    bool
+	frag   int  // hls: fragment length (s)
+	rate   int  // hls: audio sample rate
+	inband bool // hls: SPS/PPS are not known when the packetizer is built, they arrive as NAL units
 	av     []avFrame
 	raw    []rawFrame
 	args   []string // adts / avchdr
@@ -68,7 +71,10 @@ func (k *tcase) line() string {
 	var b strings.Builder
 	b.WriteString("c09 " + k.op)
 	switch k.op {
-	case "av":
+	case "av", "hls":
+		if k.op == "hls" {
+			fmt.Fprintf(&b, " frag=%d rate=%d inband=%s", k.frag, k.rate, B01(k.inband))
+		}
 		fmt.Fprintf(&b, " sps=%s pps=%s ascraw=%s mux=%s", Hx(k.sps), Hx(k.pps), Hx(k.ascraw), B01(k.mux))
 		if k.truth != "" {
 			b.WriteString(" truth=" + k.truth)
@@ -111,10 +117,16 @@ func parseCase(l string) *tcase {
 			k.ascraw = Unhx(t[7:])
 		case strings.HasPrefix(t, "mux="):
 			k.mux = t[4:] == "1"
+		case strings.HasPrefix(t, "frag="):
+			k.frag, _ = strconv.Atoi(t[5:])
+		case strings.HasPrefix(t, "rate="):
+			k.rate, _ = strconv.Atoi(t[5:])
+		case strings.HasPrefix(t, "inband="):
+			k.inband = t[7:] == "1"
 		case strings.HasPrefix(t, "truth="):
 			k.truth = t[6:]
 		case strings.Contains(t, "="):
-		case k.op == "av":
+		case k.op == "av" || k.op == "hls":
 			p := strings.Split(t, ":")
 			switch {
 			case p[0] == "v" && len(p) == 4:
@@ -547,6 +559,11 @@ func run(c *Ctx) {
 		for i := 0; i < na; i++ {
 			cases = append(cases, genAvCase(c, c.Thorough() && i%100 == 0 || i%500 == 0))
 		}
+		// the HLS path: packetizers → hls.SegmentGenerator (audio re-framed into one PES per ~100 ms)
+		nhls := c.Budget(150, 4000)
+		for i := 0; i < nhls; i++ {
+			cases = append(cases, genHlsCase(c))
+		}
 		// header builders alone: every profile/index/channel byte pattern of interest × sizes
 		nh := c.Budget(3000, 100000)
 		for i := 0; i < nh; i++ {
@@ -572,7 +589,7 @@ func run(c *Ctx) {
 	}
 	c.Res.Rule = "case = one transport stream: (a) a list of raw mpegts frames (pid, stream id, dts, pts, key, header, payload) written by the real Writer, " +
 		"(b) a list of codec frames (video NAL / AAC frame / other, ns time stamps) with SPS, PPS, AudioSpecificConfig through the real packetizers (directly or through the Muxer goroutine), " +
-		"(c) one call of NewADTSHeader / prepareAvcHeader; distinct by the full input; non-trivial when at least one frame with a non-empty payload is written"
+		"(c) one call of NewADTSHeader / prepareAvcHeader, (d) a time-ordered list of codec frames through the real packetizers into the real hls.SegmentGenerator (the segment files are the streams); distinct by the full input; non-trivial when at least one frame with a non-empty payload is written"
 
 	// run the implementation, build driver lines
 	var hangs []int
@@ -581,6 +598,7 @@ func run(c *Ctx) {
 		panicked bool
 		note     string
 		oracleOK bool // the case is in the property's domain (oracle verdict is binding)
+		nsegs    int  // hls: segment files observed
 	}
 	tImpl := time.Now()
 	lines := make([]string, len(cases))
@@ -609,6 +627,10 @@ func run(c *Ctx) {
 				}
 			}
 			line = k.line() + " asc=" + asc + " impl=" + Hx(out)
+		case "hls":
+			segs, p, note := runHls(k)
+			o = obs{panicked: p, note: note, oracleOK: true, nsegs: len(segs)}
+			line = hlsLine(k, segs) + " asc=" + ascFields(k.ascraw)
 		case "adts":
 			a := k.args
 			p, _ := strconv.Atoi(a[0])
@@ -718,6 +740,35 @@ func run(c *Ctx) {
 			c.Count("op-" + k.op)
 			if impl != outs[i] {
 				c.Find(Finding{Kind: "corr", Class: k.op, Case: in, Impl: impl, Model: outs[i]})
+			}
+			continue
+		}
+		if k.op == "hls" {
+			na, sizes := 0, map[int]bool{}
+			for _, f := range k.av {
+				if f.kind == 'a' {
+					na++
+					sizes[len(f.payload)] = true
+				}
+			}
+			c.Eval(in, o.nsegs > 0)
+			c.Count("op-hls-path")
+			if k.inband {
+				c.Count("hls-path:parameter-sets-in-band-only")
+			}
+			if len(sizes) > 1 {
+				c.Count("hls-path:aac-frame-sizes-vary")
+			} else {
+				c.Count("hls-path:aac-frame-size-constant")
+			}
+			c.Count(fmt.Sprintf("hls-path:segments-%d", o.nsegs))
+			if o.note != "" {
+				c.Find(Finding{Kind: "oracle", Class: "hls-path-" + strings.SplitN(o.note, ":", 2)[0], Case: in, Impl: o.note, Spec: "segments written and served"})
+				continue
+			}
+			if spec := m["spec"]; spec != "ok" {
+				c.Find(Finding{Kind: "oracle", Class: "hls-path:" + strings.TrimPrefix(spec, "fail:"), Case: in,
+					Impl: fmt.Sprintf("%d segment files", o.nsegs), Spec: spec})
 			}
 			continue
 		}
